@@ -1282,6 +1282,42 @@ pub fn eval(e: Sf32, env: &HashMap<String, f32>, memo: &mut HashMap<R, f32>) -> 
     r
 }
 
+/// Strip the common outer structure of two terms: while both are the same operation with one identical operand
+/// (and the differing operand is not a divisor), descend into the differing operands. If the inner pair is equal up
+/// to the sign of zero (and NaN-for-NaN), so is the outer pair: +, -, *, unary minus and "numerator of /" map a
+/// zero-sign difference to at most a zero-sign difference.
+pub fn peel(l: Sf32, r: Sf32) -> (Sf32, Sf32) {
+    let (mut l, mut r) = (l, r);
+    loop {
+        let (li, ri) = match (l.0, r.0) {
+            (R::N(a), R::N(b)) if a != b => (a, b),
+            _ => return (l, r),
+        };
+        let (nl, nr) = with(|a| (a.node(li), a.node(ri)));
+        let next = match (nl, nr) {
+            (Node::Add(a, b), Node::Add(c, d)) | (Node::Sub(a, b), Node::Sub(c, d)) | (Node::Mul(a, b), Node::Mul(c, d)) => {
+                if a == c {
+                    Some((b, d))
+                } else if b == d {
+                    Some((a, c))
+                } else {
+                    None
+                }
+            }
+            (Node::Div(a, b), Node::Div(c, d)) if b == d => Some((a, c)),
+            (Node::Neg(a), Node::Neg(c)) => Some((a, c)),
+            _ => None,
+        };
+        match next {
+            Some((x, y)) => {
+                l = Sf32(x);
+                r = Sf32(y);
+            }
+            None => return (l, r),
+        }
+    }
+}
+
 /// All DAG nodes reachable from a term (through operands and the operands of conditions).
 pub fn reachable(t: Sf32) -> std::collections::HashSet<R> {
     let mut seen: std::collections::HashSet<R> = Default::default();
